@@ -3,6 +3,7 @@
 -/
 import Xandikos.Http.EtagProofs
 import Xandikos.Tie.EtagEq
+import Xandikos.Tie.GatesEq
 import Xandikos.Http.World
 import Xandikos.Store.UidProofs
 
@@ -11,6 +12,42 @@ open Xandikos Xandikos.Store Xandikos.Http Xandikos.Py
 
 /-- Tie: the function the handlers call is, on this run's source, the model below. -/
 theorem code_is_model : Generated.etag_matches = Http.etagMatches := Tie.etag_matches_eq
+
+/-- **the handlers' gates are the model's**: the precondition tests of `PutMethod.handle`,
+    `DeleteMethod.handle` and `_do_get`, as translated from /repo on this run (Python's
+    short-circuit `and`/`not`, truthiness of the header, `etag_matches` = the translated
+    function), decide exactly what `condFails` / the model's `delete` / `get` decide — and never
+    raise (the header argument of `etag_matches` is never `None`). -/
+theorem code_is_model_put_gate (r : Http.Req) (cur : Option String) :
+    Generated.put_refuses (r.ifMatch.map String.toList) (r.ifNoneMatch.map String.toList)
+        (cur.map String.toList) = .ok (Http.condFails r cur) := Tie.put_refuses_eq r cur
+
+theorem code_is_model_delete_gate (im : Option String) (cur : String) :
+    Generated.delete_refuses (im.map String.toList) (some cur.toList) =
+      .ok (im.isSome && !(Http.condMatches (im.getD "") (some cur))) := Tie.delete_refuses_eq im cur
+
+theorem code_is_model_get_gate (inm : Option String) (cur : String) :
+    Generated.get_not_modified (inm.map String.toList) (some cur.toList) =
+      .ok ((inm.getD "") != "" && Http.condMatches (inm.getD "") (some cur)) := Tie.get_not_modified_eq inm cur
+
+/-- on the translated PUT gate: `If-Match: *` on a resource that does not exist is refused, and
+    `If-None-Match: *` on one that exists is refused — whatever the other header says -/
+theorem code_put_gate_star (cur : Option (List Char)) (other : Option (List Char)) :
+    (cur = none → Generated.put_refuses (some ['*']) other cur = .ok true) ∧
+    (∀ e, cur = some e → (other = none ∨ other = some ['*']) →
+        Generated.put_refuses other (some ['*']) cur = .ok true) := by
+  constructor
+  · intro h; subst h
+    cases other <;> rfl
+  · intro e h ho
+    subst h
+    rcases ho with rfl | rfl
+    · simp [Generated.put_refuses, Py.andM, Py.notM, Py.otruthy, Py.strArg, Py.Str.truthy,
+        Generated.etag_matches, Py.Str.splitOn, Py.Str.strip, Py.Str.rstrip, Py.Str.lstrip, Py.Str.consHead]
+      rfl
+    · simp [Generated.put_refuses, Py.andM, Py.notM, Py.otruthy, Py.strArg, Py.Str.truthy,
+        Generated.etag_matches, Py.Str.splitOn, Py.Str.strip, Py.Str.rstrip, Py.Str.lstrip, Py.Str.consHead]
+      rfl
 
 /-- `etag_matches` decides RFC 7232 on every well-formed header (any list, any padding). -/
 theorem etag_matches_is_rfc7232 (items : List (List Char × Nat × Nat)) (hne : items ≠ [])
